@@ -10,7 +10,7 @@ SPEC = {
     "anchors": ["PyMatterSim.utils.pbc:remove_pbc"],
     "must_reach": ["PyMatterSim.utils.pbc:remove_pbc"],
     "floors": {"lattice": 1000, "halfcell": 1000, "nonperiodic": 300, "shift_invariance": 300,
-               "idempotence": 1000, "shortest_orthogonal": 300, "history": 500},
+               "idempotence": 1000, "shortest_orthogonal": 300, "history": 500, "arrays_over_1000_rows": 5},
     "rule": ("random displacement arrays x cells {orthogonal, lower-triangular inside/outside LAMMPS tilt limits, "
              "general cond<=1e3} x d in {2,3} x all 2^d masks x magnitudes up to +-50 cells x adversarial values; "
              "a case is non-trivial when at least one periodic fractional coordinate had to be reduced (|f|>1/2); "
@@ -44,6 +44,8 @@ def gen_cell(rng, d):
 
 def gen_R(rng, H, d):
     n = int(rng.integers(1, 200))
+    if rng.random() < 0.004:
+        n = int(rng.choice([1025, 4097, 65537, 100003]))   # arrays far beyond the usual size (block-wise evaluation has its boundaries here)
     mode = rng.choice(["frac", "big", "adversarial", "tiny", "single"])
     if mode == "frac":
         f = rng.uniform(-1.5, 1.5, size=(n, d))
@@ -139,6 +141,8 @@ def run(ctx):
         ctx.check("inputs_untouched", np.array_equal(before[0], np.asarray(arg)) and np.array_equal(before[1], Harg) and
                   np.array_equal(before[2], np.asarray(parg)), "remove_pbc/input_modified", "an argument array was modified in place", info)
         ctx.count("rep_" + rep)
+        if R.shape[0] > 1000:
+            ctx.count("arrays_over_1000_rows")
         out = np.atleast_2d(np.asarray(out, float))
         Hinv = np.linalg.inv(H)
         cond = np.linalg.cond(H)
